@@ -320,6 +320,10 @@ class ForceMatrix:
                     xres = np.linalg.inv(mprime) @ b
                 except np.linalg.LinAlgError:
                     raise ValueError("Singular matrix")
+                # a matrix that is singular to working precision is inverted without an error and gives
+                # numbers of any size: the result has to solve the system it was computed from
+                if not np.linalg.norm(mprime @ xres - b) <= 1e-6 * (np.linalg.norm(b) + 1):
+                    raise ValueError("Singular matrix")
                 
                 if np.any([x < 0 for x in xres]) and not kwargs.get("allow_negatives", True):
                     raise ValueError("Negative values detected")
